@@ -78,19 +78,22 @@ def f64OfBits (b : Nat) : XR :=
 
 def absRat (q : Rat) : Rat := if q < 0 then -q else q
 
-/-- Numeric comparison rule of DESIGN §4.4: `|v - q| ≤ 2^-30 · scale`. -/
-def closeTo (v q scale : Rat) : Bool :=
-  absRat (v - q) ≤ scale / ((2 ^ 30 : Nat) : Rat)
+/-- Numeric comparison rule (DESIGN §4.4): `|v - q| ≤ 2^-30 · (|q| + floor)`, where `floor` is the scale of the
+    defining sum (sum of absolute values of its terms) supplied by the model. -/
+def closeTo (v q floor : Rat) : Bool :=
+  absRat (v - q) ≤ (absRat q + floor) / ((2 ^ 30 : Nat) : Rat)
 
 /-- Compare an implementation value with the model value: exact on the special classes,
-    exact or within the bound on finite values. -/
-def XR.agrees (impl model : XR) (scale : Option Rat) : Bool :=
+    exact (`tol = none`) or within the bound (`tol = some floor`) on finite values. -/
+def XR.agrees (impl model : XR) (tol : Option Rat) : Bool :=
   match impl, model with
-  | .fin a, .fin b => match scale with
+  | .fin a, .fin b => match tol with
     | none => a == b
-    | some s => closeTo a b s
+    | some fl => closeTo a b fl
   | .nan, .nan => true
   | .inf a, .inf b => a == b
   | _, _ => false
+
+def sumAbs (l : List XR) : Rat := l.foldl (fun acc x => match x with | .fin q => acc + absRat q | _ => acc) 0
 
 end Sfs
